@@ -140,13 +140,23 @@ def rule_nanfill(ctx):
         s = ctx.S.get(q)
         # buffers: np.empty results returned by the main path
         bufs = {}
+        prefilled = {}
         for m in s.by_kind("mutate"):
             if m.how == "setitem" and m.root:
                 base = m.old
-                while base.op in ("upd", "loopvar"):
-                    base = base.a[0] if base.op == "upd" else base.a[2]
+                while base.op in ("upd", "loopvar", "ite"):
+                    base = base.a[0] if base.op == "upd" else (base.a[2] if base.op == "loopvar" else base.a[1])
                 if base.op == "call" and call_name(base) == "np.empty":
                     bufs.setdefault(m.root, []).append(m)
+                elif base.op == "call" and call_name(base) == "np.full" and len(base.a[1]) >= 2 and base.a[1][1].op == "ext" and base.a[1][1].a[0] in ("np.nan", "np.NaN"):
+                    prefilled.setdefault(m.root, []).append(m)
+        if len(prefilled) >= 4 and not bufs:
+            # buffers that start out as NaN: a window that is skipped keeps NaN, so every store of computed values
+            # must sit behind the silent-source test
+            for name, ms in sorted(prefilled.items()):
+                guarded = all(any((call_name(c) == "separation._any_source_silent" or any(call_name(x) == "separation._any_source_silent" for x in tm.walk(c))) for c, p in symeval.pc_conds(m.pc)) for m in ms)
+                yield ob(R, f, "%s:%s" % (q, name), guarded, "result buffer %r starts as np.full(.., np.nan) and receives values only behind the silent-source test" % name if guarded else "result buffer %r starts as NaN but is also written for windows with a silent source" % name, node=ms[0].node)
+            continue
         if len(bufs) == 1:
             # anonymous buffers: a tuple of n allocations written through one loop variable (`for buf in buffers:`),
             # unrolled into one store per buffer - as many NaN stores under the silent-source test as buffers returned
